@@ -96,10 +96,28 @@ def run(v, tier, seed, name="replay"):
         "samples": [{"scenario": nm, "lines": l} for nm, l in mc_scen[-1:]]})
     new = static_scan(v)
     if new and nviol == 0:
-        v.violation(f"{name}-hash-sites.txt", "# property C01: iteration over a hash container that is not in the reviewed table vlib/hash_sites.json\n"
-                    "# (every such site must be shown not to reach a log, trace, queue or predicate-evaluation order)\n" + "\n".join(new) + "\n",
-                    no_input=True)
-        nviol += 1
+        # an iteration over a hash container that is not in the reviewed table is not a violation by itself (its order may
+        # not reach anything observable): the behavioural comparison is intensified instead — every scenario is executed
+        # six more times (four more OS processes) — and the sites are listed in the evidence
+        extra = 0
+        for rnd in range(2):
+            for sub, scen in (("mc", mc_scen), ("sim", sim_scen)):
+                res = run_twice(sub, scen)
+                for nm, lines in scen:
+                    a, b, c = res.get(nm, ([], [], []))
+                    extra += 3
+                    if any("capped" in l for l in a + b + c):
+                        continue
+                    if (a != b or a != c) and nviol < 5:
+                        other = b if a != b else c
+                        k = next((j for j, (x, y) in enumerate(zip(a, other)) if x != y), min(len(a), len(other)))
+                        v.violation(f"{name}-{sub}-{nm}.txt",
+                                    f"# property {v.pid}: the same {sub} scenario gave different observable histories; first difference at line {k} "
+                                    f"(new hash-container iteration sites: {new})\n#   first:  {(a[k] if k < len(a) else '-')[:400]}\n"
+                                    f"#   second: {(other[k] if k < len(other) else '-')[:400]}\n# replay: /verif/check {v.pid} --replay <this file>  (runs it 3x20 times)\n"
+                                    f"# engine: {sub}\n" + "".join(l + "\n" for l in lines if not l.startswith("draws")))
+                        nviol += 1
+        v.coverage.setdefault("hash_site_scan", {})["extra_executions_because_of_unreviewed_sites"] = extra
     return nviol
 
 
